@@ -215,17 +215,20 @@ func projectResult(t *Trace, scn int, data lokiapi.QueryResponseData) {
 	case lokiapi.MatrixResultQueryResponseData:
 		for i, s := range data.MatrixResult.Result {
 			for _, p := range s.Values {
-				t.Ev(scn, "Point", F{"labels": sortedLabels(s.Metric.Value), "t": msOf(p.T), "val": ratOf(parseFloatStr(p.V)), "series": i + 1})
+				t.Ev(scn, "Point", F{"labels": sortedLabels(s.Metric.Value), "t": msOf(p.T), "val": ratOf(parseFloatStr(p.V)), "sq": sqOf(parseFloatStr(p.V)), "series": i + 1})
 			}
 		}
 	case lokiapi.VectorResultQueryResponseData:
 		for i, s := range data.VectorResult.Result {
-			t.Ev(scn, "Point", F{"labels": sortedLabels(s.Metric.Value), "t": msOf(s.Value.T), "val": ratOf(parseFloatStr(s.Value.V)), "series": i + 1})
+			t.Ev(scn, "Point", F{"labels": sortedLabels(s.Metric.Value), "t": msOf(s.Value.T), "val": ratOf(parseFloatStr(s.Value.V)), "sq": sqOf(parseFloatStr(s.Value.V)), "series": i + 1})
 		}
 	case lokiapi.ScalarResultQueryResponseData:
 		t.Ev(scn, "Scalar", F{"t": msOf(data.ScalarResult.Result.T), "val": ratOf(parseFloatStr(data.ScalarResult.Result.V))})
 	}
 }
+
+// sqOf projects the square of a value (stddev is compared through its square).
+func sqOf(v float64) F { return ratOf(v * v) }
 
 // msOf projects a Prometheus timestamp (float seconds) to [seconds, milliseconds].
 func msOf(v float64) []int {
